@@ -540,12 +540,13 @@ func ValidTopicFilter(mustUTF8 bool, p []byte) bool {
 		if p[0] == byte('#') && plen != 1 { // #一定是最后一个字符
 			return false
 		}
-		if size == 1 && isSetPrevByte {
+		if size == 1 {
 			// + 前（如果有前后字节）,一定是'/' [MQTT-4.7.1-2]  [MQTT-4.7.1-3]
-			if (p[0] == byte('+') || p[0] == byte('#')) && prevByte != byte('/') {
+			if isSetPrevByte && (p[0] == byte('+') || p[0] == byte('#')) && prevByte != byte('/') {
 				return false
 			}
 
+			// (this also holds for a '+' that is the first byte of the filter)
 			if plen > 1 { // p[0] 不是最后一个字节
 				if p[0] == byte('+') && p[1] != byte('/') { // + 后（如果有字节）,一定是 '/'
 					return false
